@@ -1823,7 +1823,38 @@ def gen_fault(r, kmax=40, lp=False):
     return {"site": "cb", "k": kk, "exc": exc}
 
 
+def gen_c20_recursion(r):
+    """A model that cannot be solved at the default recursion limit (an element of a vector
+    expression is a ~1100-term chain inside a >= 400-deep objective): the first solve dies with
+    RecursionError (or whatever optyx turns it into); the documented remedy -- the same solve
+    inside increased_recursion_limit -- must then behave as on a fresh problem."""
+    from .world import DEFAULT_KNOBS
+
+    n = r.choice([1050, 1150, 1300])
+    deep_el = ["chain", "+", [["vel", "v", 0]] + [["num", 0.0]] * n]
+    sp = {"name": "rec", "vars": [{"kind": "vector", "name": "v", "n": 2, "lb": 0.0, "ub": 4.0, "domain": "continuous"},
+                                  {"kind": "scalar", "name": "x", "lb": 0.0, "ub": 3.0, "domain": "continuous"}],
+          "params": [],
+          "exprs": {"o": ["chain", "+", [["vsum", ["vexpr", [deep_el, ["vel", "v", 1]]]], ["var", "x"]] + [["num", 0.0]] * 405],
+                    "o2": ["+", ["var", "x"], ["vel", "v", 1]]},
+          "cons": {"c": {"k": "s", "lhs": ["+", ["var", "x"], ["vel", "v", 1]], "sense": ">=", "rhs": ["num", 1.0]}},
+          "expr_order": ["o", "o2"], "con_order": ["c"]}
+    lim = r.choice([20000, 30000])
+    meth = r.choice(["auto", "SLSQP", "L-BFGS-B", "auto"])
+    ops = [["new_model", 0, sp], [r.choice(["minimize", "maximize"]), 0, "o"]]
+    if r.random() < 0.5:
+        ops.append(["subject_to", 0, "c"])
+    ops.append(["solve", 0, {"method": meth}])  # default limit: expected to die
+    if r.random() < 0.5:
+        ops.append(["read_variables", 0])
+    ops.append(["with_reclimit", lim, ["solve", 0, cap_iterations(r, {"method": meth})]])
+    ops.append(["with_reclimit", lim, ["read_variables", 0]])
+    return {"knobs": dict(DEFAULT_KNOBS), "ops": ops}
+
+
 def gen_c20(r, tier="quick"):
+    if r.random() < 0.04:
+        return gen_c20_recursion(r)
     knobs = gen_knobs(r, 0.7)
     sc = gen_c20_scenario(r)
     ops = list(sc["prefix"])
